@@ -173,21 +173,62 @@ def built_descs(ctx):
       N(N(N(N(0, 1), N(2, "ebranch", 3)), N(N(4, 5), "eleaf", N(6, 7))),
         N(N(N(8, 9), N(10, 11)), "ecodec", N(N(12, 13), N(14, 15))), pre=True), page=64)
     # concatenation (rac-spec.md, third example): three RAC files, each a CBiasing child of a new Root Node at
-    # the end: non-zero CBias and DBias; the first one starts the CFile with its own (now obsolete) root
+    # the end: non-zero CBias and DBias; the first one starts the CFile with its own (now obsolete) root; the
+    # second one is itself a concatenation (a CBiasing child inside a CBiasing child: the biases add up)
     F("cb", [[1, 11, 11, 1], [1, 11, 11, 1], [1, 13, 13, 1], [1, 6, 6, 1], [1, 5, 2, 1], [1, 4, 4, 1], [1, 9, 0, 0]],
-      N(N("res", 0, 1, 2, bias=True, pre=True), N(3, N(4, 5), bias=True, pre=False, hdr=True), N(6, bias=True, pre=True)))
+      N(N("res", 0, 1, 2, bias=True, pre=True), N(3, N(4, 5, bias=True, pre=True), bias=True, pre=False, hdr=True), N(6, bias=True, pre=True)))
     # a Zeroes chunk of several worker buffers between two Zlib chunks larger than a buffer
     F("zb", [[1, 70000, 70000, 1], [1, 200000, 0, 0], [1, 70000, 40000, 1]], N(N(0), N(1), N(2), hdr=True))
     # all four Short Codecs in one file
     F("lz", [[1, 9, 9, 1], [1, 8, 8, 2], [1, 6, 3, 2], [1, 7, 7, 3], [1, 8, 4, 3], [1, 5, 0, 0]], N(N(0), N(1, 2), N(3, 4), N(5), hdr=True))
     # the repository's own index builder beyond two levels: 66000 chunks = 259 + 2 + 1 Branch Nodes
     fs.append({"id": "big", "kind": "chunkwriter", "seed": s * 100 + 1, "runs": [[40000, 2, 2, 1], [26000, 3, 1, 1]], "index_start": False})
+    # two seeded random members of the structural space per run (Root Node at the start / at the end)
+    rr = __import__("random").Random(ctx.seed * 7919 + 17)
+    fs.append(random_desc(rr, "rs", s * 100 + 3, True))
+    fs.append(random_desc(rr, "re", s * 100 + 4, False))
     if ctx.tier == "thorough":
+        fs.append(random_desc(rr, "rs2", s * 100 + 5, True))
+        fs.append(random_desc(rr, "re2", s * 100 + 6, False))
         # five levels of arity 1-2; Root Node at the end
         F("d5", [[6, 3, 3, 1], [1, 4, 0, 0], [5, 3, 2, 1]],
           N(N(N(N(N(0, 1), N(2)), N(N(3))), N(N(N(4, 5)))), N(N(N(N(6), N(7, 8)))), N(N(N(N(9)), N(N(10, 11)))), hdr=True), page=32)
         fs.append({"id": "bigs", "kind": "chunkwriter", "seed": s * 100 + 2, "runs": [[65026, 3, 3, 1], [300, 2, 1, 1]], "index_start": True, "page": 4096})
     return fs
+
+
+def random_desc(rng, fid, seed, pre):
+    """A seeded random member of the structural space: an index of 3-4 levels with arity 1-3 (at least two
+    children with data per node when the Root Node is at the start: the format's anti-loop rule), Leaf and
+    Branch siblings, Zlib and Zeroes nodes, implicit zero tails, empty elements, shared dictionaries."""
+    while True:
+        runs = []
+
+        def leaf(codec):
+            size = rng.choice([1, 2, 3, 4, 5, 7])
+            runs.append([1, size, 0 if codec == 0 else rng.choice([size, size, size, size // 2, 0, size - 1]), codec])
+            return len(runs) - 1
+
+        def node(depth):
+            codec = rng.choice([1, 1, 1, 0])
+            els = ["res"] if codec == 1 and rng.random() < 0.2 else []
+            for _ in range(rng.randint(2 if pre else 1, 3)):
+                if depth > 1 and rng.random() < (0.8 if depth > 2 else 0.5):
+                    els.append(node(depth - 1))
+                else:
+                    els.append(leaf(codec))
+                if rng.random() < 0.12:
+                    els.append(rng.choice(["eleaf", "ebranch"]))
+            return N(*els)
+
+        def depth_of(n):
+            return 1 + max([depth_of(e) for e in n["e"] if isinstance(e, dict)] or [0])
+        root = node(rng.choice([3, 4]))
+        tops = sum(1 for e in root["e"] if isinstance(e, (dict, int)))
+        if depth_of(root) >= 3 and 6 <= len(runs) <= 20 and tops >= 2:
+            break
+    root["pre" if pre else "hdr"] = True
+    return {"id": fid, "kind": "built", "seed": seed, "runs": runs, "tree": root, "page": rng.choice([0, 0, 16])}
 
 
 def desc_chunks(d):
@@ -288,7 +329,8 @@ def validate_files(ctx, binw, descs, finfo, pool):
             if v["root"] == rv:
                 depth[v["v"]] = 1 if v["parent"] == 0 else depth[v["parent"]] + 1
         rn = t["visits"][rv - 1]
-        out[d["id"]] = {"depth": max(depth.values()), "nodes": len(depth), "top": sorted(set(rn["dptr"])),
+        out[d["id"]] = {"cranges": [l["prim"] + l["sec"] + l["ter"] for l in t["leaves"] if l["root"] == rv],
+                        "depth": max(depth.values()), "nodes": len(depth), "top": sorted(set(rn["dptr"])),
                         "root_at": "start" if rn["coff"] == 0 else "end", "arity_root": rn["arity"],
                         "cbias_nonzero": sum(1 for v in t["visits"] if v["root"] == rv and v["cbias"] != 0),
                         "dbias_nonzero": sum(1 for v in t["visits"] if v["root"] == rv and v["dbias"] != 0),
@@ -310,11 +352,11 @@ def geo_alphabet(chunks, top):
         sel |= {254, 255, 256}
     for i in zero[:6] + zero[-2:]:
         sel |= {i - 1, i, i + 1}
-    deep = []
+    deep = []                  # (chunk, top-level element from 1): the first two chunks of the 2nd-4th element
     for j in range(1, min(len(top) - 1, 4)):
         i = at[top[j]]
         sel |= {i - 1, i, i + 1}
-        deep += [i, i + 1]
+        deep += [(i, j + 1)] + ([(i + 1, j + 1)] if i + 1 < nch and chunks[i + 1][0] < top[j + 1] else [])
     sel = sorted(i for i in sel if 0 <= i < nch)
     many = nch > 5000          # a Read of everything is 10^5 chunk set-ups: the lengths stay below ~600 chunks
     offs = set()
@@ -335,8 +377,8 @@ def geo_alphabet(chunks, top):
     def inside(i):
         lo, hi = chunks[i][0], chunks[i][1]
         return sorted({lo + 1, (lo + hi) // 2, hi - 1} - {lo, hi}) if hi - lo >= 2 else []
-    zin = [(p, chunks[i][1]) for i in zero if i + 1 < nch for p in inside(i)]
-    din = [(p, chunks[i][1]) for i in deep if 0 <= i < nch for p in inside(i)]
+    zin = [(p, chunks[i][1], 0) for i in zero if i + 1 < nch for p in inside(i)]
+    din = [(p, chunks[i][1], t) for i, t in deep for p in inside(i)]
     reads = [[0, n, 0] for n in lens]
     seeks0 = [[1, o, 0] for o in offs]
     sizeL = chunks[-1][1] - chunks[-1][0]
@@ -357,8 +399,14 @@ def draw_geo_alphabet(rng, fa, size):
     big = [c for c in fa["reads"] if c[1] >= fa["maxchunk"] + 1] or [fa["reads"][-1]]
     good = [c for c in fa["ranges"] if 0 <= c[1] <= c[2]]
     sp = fa["special"]
-    p, hi = rng.choice(sp) if sp else (rng.choice([c[1] for c in fa["seeks0"] if 0 < c[1] < d]), d)
-    across = [c for c in fa["ranges"] if c[1] in [q for q, _ in sp] and c[2] > dict(sp)[c[1]] and c[2] < d] \
+    # the Seek goes into the first special region (a Zeroes chunk / the 2nd top-level sub-tree), the SeekRange
+    # starts in a later one when there is one (the 3rd.. top-level sub-tree)
+    first = [x for x in sp if x[2] == min(y[2] for y in sp)]
+    later = [x for x in sp if x[2] >= 3] or sp
+    p = rng.choice(first)[0] if sp else rng.choice([c[1] for c in fa["seeks0"] if 0 < c[1] < d])
+    end_of = {q: hi for q, hi, _ in later}
+    across = [c for c in fa["ranges"] if c[1] in end_of and end_of[c[1]] < c[2] < d] \
+        or [c for c in fa["ranges"] if c[1] in end_of and end_of[c[1]] < c[2]] \
         or [c for c in fa["ranges"] if 0 <= c[1] < c[2] < d] or good
     essential = [
         rng.choice(big),
@@ -914,6 +962,15 @@ def run(ctx, only_replay=None):
         if fid in shape and shape[fid]["top"] != top:
             raise ToolingError("file %s: Root Node DOffs %s (walker) / %s (bytes)" % (fid, shape[fid]["top"], top))
         listed = [(c[0], c[1], e, k) for c, e, k in zip(fi["chunks"], fi["explicit"], fi["codecs"])]
+        if fid in shape and not fi["cr_err"] and listed == chunks:
+            # the three CRanges of every chunk, as the specification's MakeCRange gives them (walker)
+            wcr = shape[fid].pop("cranges")
+            k = next((i for i, (a, b) in enumerate(zip(fi["cranges"], wcr)) if list(a) != list(b)), None)
+            if k is not None:
+                ctx.violation("file %s (%s), valid by Trace_RacFormat.tla: rac.ChunkReader reports chunk %d %s with CPrimary/CSecondary/CTertiary %s, "
+                              "rac-spec.md's MakeCRange gives %s" % (fid, fdesc_str(d), k, listed[k][:2], fi["cranges"][k], wcr[k]),
+                              {"kind": "chunklist", "file": d, "cranges_listed": fi["cranges"][:200], "cranges_expected": wcr[:200]})
+        shape.get(fid, {}).pop("cranges", None)
         if fi["cr_err"] or listed != chunks:
             k = next((i for i, (a, b) in enumerate(zip(listed, chunks)) if a != b), min(len(listed), len(chunks)))
             what = "rac.ChunkReader.NextChunk %s: chunk %d is %s, the file has %s (DRange, bytes stored, Codec; %d chunks listed, %d in the file)" % (
@@ -944,18 +1001,21 @@ def run(ctx, only_replay=None):
     depth = 5 if thorough else 4
     draws = 3 if thorough else 1
     asizes = {"c1": 8, "c2": 8, "c3": 9, "c4": 8, "c5": 9, "ml": 7, "m4": 7, "mk": 7, "b3": 6, "b2": 6,
-              "z1": 8, "z2": 8, "d3": 7, "d3s": 7, "d4": 7, "d4s": 6, "cb": 7, "zb": 6, "lz": 6, "big": 6, "d5": 6, "bigs": 5}
+              "z1": 8, "z2": 8, "d3": 7, "d3s": 7, "d4": 7, "d4s": 6, "cb": 7, "zb": 6, "lz": 6, "big": 6, "d5": 6, "bigs": 5,
+              "rs": 6, "re": 6, "rs2": 6, "re2": 6}
     if thorough:
         asizes.update({"c3": 8, "c5": 8, "z1": 7, "z2": 7, "d3": 6, "d3s": 6, "d4": 6, "cb": 6})
     cfgs = []
+    special = {}
     for fid in sorted(fdescs):
         if fdescs[fid].get("kind"):
             fa = geo_alphabet(fgeo[fid]["chunks"], fgeo[fid]["top"])
             draw = draw_geo_alphabet
+            special[fid] = fa["special_kind"] if fa["special"] else None
         else:
             fa = full_alphabet(bounds[fid])
             draw = draw_alphabet
-        for _ in range(draws):
+        for _ in range(min(draws, 2) if fdescs[fid].get("kind") else draws):
             cfgs.append({"file": fid, "geo": fgeo[fid], "alpha": draw(rng, fa, asizes[fid]), "depth": depth, "origin": "alphabet"})
     # the client scripts of the RacConc configurations, in bytes, on the matching real files
     for geo, rl, sp, rg in ((G1, [1, 2, 6], [0, 1, 3], R1[:2]), (G2, [1, 2, 9], [0, 4], [(1, 2)]), (G3, [1, 5], [0, 4], [(1, 6)])):
@@ -1006,13 +1066,21 @@ def run(ctx, only_replay=None):
     ctx.log("file coverage of the exported calls (RacReader labels): %s" % tot)
     if not tot["reads_from_strictly_inside_a_zeroes_chunk_across_its_end_fresh_cursor"]:
         raise ToolingError("no exported behaviour seeks into the middle of a Zeroes chunk and reads across its end")
-    for fid, d in fdescs.items():
+    # files whose alphabet is built around the 2nd / 3rd.. top-level sub-tree (draw_geo_alphabet: a Seek into the
+    # former, a SeekRange into the latter): the Reads that follow them must show up with those labels
+    deep3 = []
+    for fid in special:
         ntop = len(fgeo[fid]["top"]) - 1
-        deep = shape[fid]["depth"] >= 3 if fid in shape else len(fgeo[fid]["chunks"]) > 65025
-        if deep and ntop >= 2 and not fcov[fid]["reads_delivering_bytes_from_top_level_element_2"]:
-            raise ToolingError("file %s: no exported Read starts in the 2nd top-level sub-tree of a >= 3 level index" % fid)
-        if deep and ntop >= 3 and not fcov[fid]["reads_delivering_bytes_from_top_level_element_3_or_later"]:
-            raise ToolingError("file %s: no exported Read starts in the 3rd.. top-level sub-tree of a >= 3 level index" % fid)
+        if special[fid] != "deep" or ntop < 2:
+            continue
+        if not fcov[fid]["reads_delivering_bytes_from_top_level_element_2"]:
+            raise ToolingError("file %s: no exported Read starts in the 2nd top-level sub-tree" % fid)
+        if ntop >= 3 and not fcov[fid]["reads_delivering_bytes_from_top_level_element_3_or_later"]:
+            raise ToolingError("file %s: no exported Read starts in the 3rd.. top-level sub-tree" % fid)
+        if (shape[fid]["depth"] if fid in shape else 3 if len(fgeo[fid]["chunks"]) > 65025 else 2) >= 3:
+            deep3.append(fid)
+    if not any(fid in shape and shape[fid]["root_at"] == "start" for fid in deep3) or not any(fid in shape and shape[fid]["root_at"] == "end" for fid in deep3):
+        raise ToolingError("no >= 3 level index with the Root Node at the start / at the end is read beyond its first top-level sub-tree: %s" % deep3)
 
     # ---------------------------------------------------------------- 4. sequential replay: every behaviour
     seq = run_harness(ctx, binp, {"seed": ctx.seed, "files": list(fdescs.values()), "conc": [0], "par": min(vlib.NCPU, 12)}, scripts, "seq", timeout=3000)
@@ -1027,6 +1095,9 @@ def run(ctx, only_replay=None):
         seq_sigs[sig] = seq_sigs.get(sig, 0) + 1
         if seq_sigs[sig] <= 2 and len(ctx.violations) < 12:
             report_failure(ctx, f, fdescs[f["file"]], bounds[f["file"]], active, "sequential replay")
+    if seq.get("aborted"):
+        raise ToolingError("the sequential replay was stopped at a call into lib/rac that does not return (reported above); %d of %d scripts had run" % (
+            seq["scripts_run"], len(scripts)))
     ctx.log("sequential: %d scripts, %d calls (%d compared, %d bytes compared), %d failures; calls per op@cursor: %s" % (
         seq["scripts_run"], seq["calls_run"], seq["calls_checked"], seq["bytes_checked"], len(seq["failures"]), seq["cursor_states"]))
 
@@ -1100,7 +1171,7 @@ def run(ctx, only_replay=None):
     nshards = 8 if thorough else 6
     shards = []
     for c in concs:
-        lst = chosen[c]
+        lst = sorted(chosen[c], key=lambda x: x["f"])      # a shard builds only the files of its scripts
         per = (len(lst) + (nshards // len(concs)) - 1) // max(1, nshards // len(concs))
         for k in range(0, len(lst), max(1, per)):
             shards.append((c, lst[k:k + per]))
@@ -1162,7 +1233,7 @@ def run(ctx, only_replay=None):
             return k
         # (the search for an interleaving grows steeply with the number of works and workers)
         cand = [s for c in (2, 4) for s in chosen[c] if completes(s) and all(x[3] == 2 for x in s["h"])
-                and (thorough or works(s) <= 40)]
+                and len(bounds[s["f"]]) <= 1000 and (thorough or works(s) <= 40)]
         rng.shuffle(cand)
         tdir = ctx.subdir("traces")
         if thorough:
@@ -1270,6 +1341,9 @@ def replay(ctx, path):
         if fi["cr_err"] or listed != want:
             ctx.violation("rac.ChunkReader.NextChunk does not list the chunks of the valid file %s (%s): %s%s, the file has %s" % (
                 fdesc["id"], fdesc_str(fdesc), listed[:40], (" then error %r" % fi["cr_err"]) if fi["cr_err"] else "", want[:40]), rep)
+        elif rep.get("cranges_expected") and [list(x) for x in fi["cranges"][:200]] != [list(x) for x in rep["cranges_expected"]]:
+            ctx.violation("rac.ChunkReader reports other CRanges for the chunks of the valid file %s (%s) than MakeCRange of rac-spec.md gives: %s, expected %s" % (
+                fdesc["id"], fdesc_str(fdesc), fi["cranges"][:40], rep["cranges_expected"][:40]), rep)
         else:
             print("the chunk list equals the description: not reproduced on this tree")
         return
